@@ -1,0 +1,30 @@
+//! Verification hook (compiled only with `--cfg quinn_rs_quinn_verif`).
+//!
+//! Constants the Coq theorems are instantiated with, read from the compiled crate.
+#![allow(missing_docs, dead_code, unused_imports, unreachable_pub, clippy::all)]
+use super::{Ops, Outs};
+
+/// `(name, value)` pairs written to `coq/gen/Constants.v` on every run.
+pub fn constants() -> Vec<(&'static str, i128)> {
+    let mut v: Vec<(&'static str, i128)> = vec![
+        ("LOC_CID_COUNT", crate::LOC_CID_COUNT as i128),
+        ("RESET_TOKEN_SIZE", crate::RESET_TOKEN_SIZE as i128),
+        ("MAX_CID_SIZE", crate::MAX_CID_SIZE as i128),
+        ("MIN_INITIAL_SIZE", crate::MIN_INITIAL_SIZE as i128),
+        ("INITIAL_MTU", crate::INITIAL_MTU as i128),
+        ("MAX_UDP_PAYLOAD", crate::MAX_UDP_PAYLOAD as i128),
+        ("TIMER_GRANULARITY_US", crate::TIMER_GRANULARITY.as_micros() as i128),
+        ("MAX_STREAM_COUNT", crate::MAX_STREAM_COUNT as i128),
+        ("CID_QUEUE_LEN", crate::cid_queue::CidQueue::LEN as i128),
+        ("VARINT_MAX", crate::VarInt::MAX.into_inner() as i128),
+        ("RETIRE_CONNECTION_ID_SIZE_BOUND", crate::frame::RETIRE_CONNECTION_ID_SIZE_BOUND as i128),
+        ("DATAGRAM_SIZE_BOUND", <crate::frame::Datagram as crate::frame::FrameStruct>::SIZE_BOUND as i128),
+        ("CRYPTO_SIZE_BOUND", crate::frame::Crypto::SIZE_BOUND as i128),
+    ];
+    v.extend(crate::connection::verif_hooks::constants());
+    v
+}
+
+pub(crate) fn run(_comp: &str, _ops: &Ops) -> Option<Outs> {
+    None
+}
